@@ -118,7 +118,11 @@ def check_prune(root, strict, what):
         if not offending and p is not None and p.name in rule_mod.node_mappings:
             offending = not rule_mod.get_rule(p.name).is_allowed_child(r.name)
         if not offending and strict:
-            offending = True    # strict mode may remove any node that fails single-node validation (checked at removal time by prune itself)
+            # strict mode may remove a node that fails single-node validation; the removed node still holds its (pruned) children, so ask again
+            try:
+                validate.node(r)
+            except MetapypeRuleError:
+                offending = True
         if not offending:
             return fail("removed-innocent", f"{r.name} was removed although it is known and allowed under {p.name if p is not None else None}")
     # registry
@@ -206,17 +210,25 @@ def task(case):
     from contracts import c15_prune
     from metapype.eml import validate
     w = rule_world()
+    if case == "clean":
+        con = c15_prune.install_clean(w)
+        return Task(w, validate.prune, con, name="C15/prune[a clean tree is left alone]").run()
     con = c15_prune.install(w, case)
     return Task(w, validate.prune, con, name=f"C15/prune[{case}]").run()
 
 
 def main(tier, seed):
     t0 = time.time()
-    results = common.run_tasks([("props.C15", "task", {"case": c}) for c in ("metadata", "unknown")])
+    results = common.run_tasks([("props.C15", "task", {"case": c}) for c in ("metadata", "unknown", "clean")])
     b = bounded(tier, seed)
     return common.decide(PID, tier, seed, results, b, t0, "DESIGN.md §4 C15", extra_assumptions=[
-        "proved: only the two loop-free cases of prune (metadata node: nothing happens; unknown element: detached from its parent's list by "
+        "proved: the two loop-free cases of prune (metadata node: nothing happens; unknown element: detached from its parent's list by "
         "first-occurrence removal, its whole subtree unregistered, reported as (node, reason)), against the contracts of remove_child and "
-        "delete_node_instance",
-        "BOUNDED, not proved: the recursive case over known elements (disallowed children, strict re-validation, exactness, order of kept "
-        "nodes, idempotence): all trees up to the stated size over a palette of valid / invalid / misplaced / unknown nodes, both modes"])
+        "delete_node_instance; and, for the full recursive function in both modes: a tree that is already clean (ghost prune_clean, unfolded one "
+        "level: known names, only permitted children, in strict mode valid non-root nodes; nothing is said below metadata) is left exactly as it "
+        "is, nothing is reported and nothing is raised — the second half of 'pruning a second time removes nothing'",
+        "validate.node and the rule table enter that proof abstractly (node_valid: what C04 proves of validate.node; rule_child_names_of: "
+        "is_allowed_child is membership in the rule's child-name list, C17)",
+        "BOUNDED, not proved: that the first pruning establishes prune_clean and removes exactly the offending subtrees (disallowed children, "
+        "strict re-validation, exactness, order of kept nodes): all trees up to the stated size over a palette of valid / invalid / misplaced / "
+        "unknown / permitted-but-unknown nodes, both modes"])
